@@ -493,6 +493,12 @@ func (vc *VC) eval(st *State, e ast.Expr) Val {
 			r := constant.ToFloat(tv.Value)
 			return sc(fmt.Sprintf("(/ %s.0 %s.0)", constant.Num(r).ExactString(), constant.Denom(r).ExactString()), SReal)
 		}
+		if n, ok := tv.Type.(*types.Named); ok && n.Obj().Name() == "mathint" {
+			bi, _ := new(big.Int).SetString(constant.ToInt(tv.Value).ExactString(), 10)
+			mod := new(big.Int).Lsh(big.NewInt(1), 128)
+			bi.Mod(bi, mod)
+			return sc(fmt.Sprintf("(_ bv%s 128)", bi.String()), BV(128))
+		}
 		return vc.constVal(tv, e)
 	}
 	switch x := e.(type) {
@@ -593,6 +599,17 @@ func (vc *VC) evalUnary(st *State, x *ast.UnaryExpr) Val {
 		p := vc.resolvePlace(st, x.X)
 		if p.kind == pHeap && p.path == "" {
 			return sc(p.ref, SRef) // pointer to (interior) object
+		}
+		if p.kind == pVar && len(p.sub) == 0 && classify(p.typ) == kStruct {
+			// &local for a struct-valued local: the variable escapes; model it as a heap object
+			// initialised from the current value (the local is not used afterwards in this code base:
+			// `c := T{...}; return &c`)
+			if sv, ok := st.vars[p.obj].(*StructV); ok {
+				ref := vc.alloc(st, typeKey(p.typ))
+				hp := place{kind: pHeap, ref: ref, owner: typeKey(p.typ), typ: p.typ}
+				vc.initObject(st, hp, p.typ, sv)
+				return sc(ref, SRef)
+			}
 		}
 		return &PtrV{p}
 	case token.NOT:
@@ -735,6 +752,9 @@ func (vc *VC) evalBinary(st *State, x *ast.BinaryExpr) Val {
 	case token.MUL:
 		op = "bvmul"
 	case token.QUO:
+		if k, ok := pow2Lit(b.T, b.S.Width()); ok && !signed {
+			return sc(sx("bvlshr", a.T, bvLit(uint64(k), a.S.Width())), res)
+		}
 		if !vc.specMode {
 			vc.oblige(st, "div", "", x.Pos(), not(eq(b.T, bvLit(0, b.S.Width()))), "division by zero: "+exprString(x))
 		}
@@ -743,6 +763,9 @@ func (vc *VC) evalBinary(st *State, x *ast.BinaryExpr) Val {
 			op = "bvsdiv"
 		}
 	case token.REM:
+		if k, ok := pow2Lit(b.T, b.S.Width()); ok && !signed {
+			return sc(sx("bvand", a.T, bvLit((uint64(1)<<uint(k))-1, a.S.Width())), res)
+		}
 		if !vc.specMode {
 			vc.oblige(st, "div", "", x.Pos(), not(eq(b.T, bvLit(0, b.S.Width()))), "division by zero: "+exprString(x))
 		}
@@ -982,4 +1005,21 @@ func constantInt64(tv types.TypeAndValue) (int64, bool) {
 		return 0, false
 	}
 	return constant.Int64Val(constant.ToInt(tv.Value))
+}
+
+// pow2Lit recognises a bit-vector literal that is a power of two and returns its exponent.
+func pow2Lit(t string, w int) (int, bool) {
+	if !strings.HasPrefix(t, "#x") || w > 64 {
+		return 0, false
+	}
+	var v uint64
+	if _, err := fmt.Sscanf(t[2:], "%x", &v); err != nil || v == 0 || v&(v-1) != 0 {
+		return 0, false
+	}
+	k := 0
+	for v > 1 {
+		v >>= 1
+		k++
+	}
+	return k, true
 }
